@@ -103,7 +103,9 @@ func (r *funcResultsResolver) Results(vs visits) (finalFuncResults FuncResults) 
 		return funcResultsFromSignature(r.sig)
 	}
 
-	return
+	// the signature is only known from a call through another kind of expression
+	// (dot-imported name, parenthesized or aliased function)
+	return funcResultsFromSignature(r.sig)
 }
 
 func funcResultsFromSignature(sig *types.Signature) FuncResults {
